@@ -16,6 +16,7 @@ func init() {
 		LevelNote: "Ledger entries are reading, not proof (counted separately). Trusted: the compiler's prove pass; io.Reader/strings contracts listed in the evidence; 64-bit sums of lengths and <=32-bit quantities do not wrap. Does not decide progress/hangs nor allocation sizes.",
 		DesignRef: "DESIGN.md §5 C37, §4 E4",
 		Run:       runC37,
+		Own386:    true,
 	})
 }
 
